@@ -59,11 +59,13 @@ Definition truthy (j : json) : bool :=
   | JObj o => match o with [] => false | _ => true end
   end.
 
-Fixpoint mapM {A B} (f : A -> res B) (l : list A) : res (list B) :=
-  match l with
-  | [] => Ok []
-  | x :: t => let* y := f x in let* t' := mapM f t in Ok (y :: t')
-  end.
+(* f is outside the fix, so that mapM can carry the nested recursion over JSON values *)
+Definition mapM {A B} (f : A -> res B) : list A -> res (list B) :=
+  fix go (l : list A) : res (list B) :=
+    match l with
+    | [] => Ok []
+    | x :: t => let* y := f x in let* t' := go t in Ok (y :: t')
+    end.
 
 (* `k in v` for a JSON value v that is a dict (lists: only the [None] produced from null is in the domain
    of the documents considered; a list never contains the key strings tested below) *)
@@ -234,20 +236,9 @@ Definition cnum (fd : Z) (m : Z) (d : nat) : res json :=
 Fixpoint convert_dict_fd (fd : Z) (j : json) {struct j} : res json :=
   match j with
   | JObj o =>
-      let fix go (o : obj) : res obj :=
-        match o with
-        | [] => Ok []
-        | kv :: t => let* v' := convert_dict_fd (prec_d (fst kv)) (snd kv) in
-                     let* t' := go t in Ok ((fst kv, v') :: t')
-        end in
-      let* o' := go o in Ok (JObj o')
-  | JArr l =>
-      let fix go (l : list json) : res (list json) :=
-        match l with
-        | [] => Ok []
-        | x :: t => let* x' := convert_dict_fd fd x in let* t' := go t in Ok (x' :: t')
-        end in
-      let* l' := go l in Ok (JArr l')
+      let* o' := mapM (fun kv => let* v' := convert_dict_fd (prec_d (fst kv)) (snd kv) in Ok (fst kv, v')) o in
+      Ok (JObj o')
+  | JArr l => let* l' := mapM (convert_dict_fd fd) l in Ok (JArr l')
   | JNum m d => cnum fd m d
   | _ => Ok j
   end.
@@ -259,25 +250,15 @@ Definition in_none_m1 (fd : option Z) : bool :=
 Fixpoint convert_back_fd (fd : option Z) (j : json) {struct j} : res json :=
   match j with
   | JObj o =>
-      let fix go (o : obj) : res obj :=
-        match o with
-        | [] => Ok []
-        | kv :: t => let* v' := convert_back_fd (prec (fst kv)) (snd kv) in
-                     let* t' := go t in Ok ((fst kv, v') :: t')
-        end in
-      let* o' := go o in Ok (JObj o')
+      let* o' := mapM (fun kv => let* v' := convert_back_fd (prec (fst kv)) (snd kv) in Ok (fst kv, v')) o in
+      Ok (JObj o')
   | JArr l =>
-      let fix go (l : list json) : res (list json) :=
-        match l with
-        | [] => Ok []
-        | x :: t =>
-            let* x' := match x with
-                       | JStr s => if in_none_m1 fd then Ok x else py_float s
-                       | _ => convert_back_fd fd x
-                       end in
-            let* t' := go t in Ok (x' :: t')
-        end in
-      let* l' := go l in Ok (JArr l')
+      (* a string element of a list is float()ed whatever the digits (even 0), unless the key is string-typed *)
+      let* l' := mapM (fun x => match x with
+                                | JStr s => if in_none_m1 fd then Ok x else py_float s
+                                | _ => convert_back_fd fd x
+                                end) l in
+      Ok (JArr l')
   | JStr s =>
       match fd with
       | None => Ok j
